@@ -153,26 +153,41 @@ def run_op(case, seed):
         A = opcat.build(spec, seed)
         snap = snapshot.walk(A)
         v_before = len(viol)
+        kept = []   # (event, live output object, copy at return time): results of earlier calls must stay valid
         for step, ev in enumerate(word):
             when = "event %s" % ev
+            out = None
             try:
                 if ev == "a":
-                    ok, e = _close(A(live["xa"]), refs["a"], 1e-9)
+                    out = A(live["xa"])
+                    ok, e = _close(out, refs["a"], 1e-9)
                 elif ev == "b":
-                    ok, e = _close(A(live["xb"]), refs["b"], 2e-5)
+                    out = A(live["xb"])
+                    ok, e = _close(out, refs["b"], 2e-5)
                 elif ev == "r":
                     try:
-                        ok, e = _close(A(live["xr"]), refs["r"], 2e-5)
+                        out = A(live["xr"])
+                        ok, e = _close(out, refs["r"], 2e-5)
                         real_outcome.add("returned")
                     except Exception:
                         ok, e = True, 0.0
                         real_outcome.add("raised")
                 elif ev == "h":
-                    ok, e = _close(A.H(live["ya"]), refs["h"], 1e-9)
+                    out = A.H(live["ya"])
+                    ok, e = _close(out, refs["h"], 1e-9)
                 elif ev == "n":
-                    ok, e = _close(A.N(live["xa"]), refs["n"], 1e-9)
+                    out = A.N(live["xa"])
+                    ok, e = _close(out, refs["n"], 1e-9)
                 else:
-                    ok, e = _close(A.H.H(live["xa"]), refs["H"], 1e-9)
+                    out = A.H.H(live["xa"])
+                    ok, e = _close(out, refs["H"], 1e-9)
+                for pev, pobj, pcopy in kept:
+                    if pobj.shape != pcopy.shape or pobj.tobytes() != pcopy.tobytes():
+                        V("earlier-result-overwritten", when, "history %s: the array returned by an earlier call (%s) was changed by this call "
+                          "(shared scratch buffer?)" % ("".join(word[:step + 1]), pev))
+                        break
+                if isinstance(out, np.ndarray):
+                    kept.append((ev, out, out.copy()))
             except Exception as ex:
                 ok, e = False, float("nan")
                 V("history-exception", when, "history %s: %s: %s" % ("".join(word[:step + 1]), type(ex).__name__, str(ex)[:200]))
